@@ -3,8 +3,8 @@
                      (value_eq) to the original -- version skew loses nothing that is not default;
    copy_then_equal   capnp.Equal(source, copy) is true for a deep copy (model equal_m, C17). *)
 From CV Require Import Value.ValueEq Value.ValueEqProofs Value.EqualM Value.Den Value.DenFacts Value.DenLists
-                       Value.CanonSpec Value.CanonProofs Value.CanonProofs2 Value.CanonMListC Value.EqualCorrect
-                       Value.CanonMLoop Value.CanonMHeap Value.CanonMInd Value.CopyValue Value.CopyValueHeap Value.CopyValueInd Value.VDec Value.VDecProofs Value.EqualProofs.
+                       Value.CanonSpec Value.CanonProofs Value.CanonProofs2 Value.CanonMBlocks Value.EqualCorrect
+                       Value.CanonMLoop Value.CanonMHeap Value.CanonMInd Value.CopyValue Value.CopyValueHeap Value.CopyValueDefs Value.CopyValueInd Value.VDec Value.VDecProofs Value.EqualProofs.
 From CV Require Import Core.ReaderFacts Core.SafetyProofs Core.BuilderFacts Core.CopySafe.
 From Coq Require Import ZifyBool ZifyNat.
 Open Scope Z_scope.
@@ -92,7 +92,7 @@ Proof.
   split; [split; vm_compute; [reflexivity|discriminate]|].
   split.
   { intros _. vm_compute. repeat split; discriminate. }
-  split; [intros _; reflexivity|]. split; [intros K; discriminate K|]. split; [intros _ K; discriminate K|]. split; [reflexivity|].
+  split; [intros _; reflexivity|]. split; [intros K; vm_compute in K; discriminate K|]. split; [intros _ K; vm_compute in K; discriminate K|]. split; [reflexivity|].
   eexists. eexists. split; [apply (vdec_den 10 1000000); vm_compute; reflexivity|].
   split; vm_compute; reflexivity.
 Qed.
